@@ -48,8 +48,6 @@ func (n *SpacelessNode) Render(w io.Writer, ctx *RenderContext) error {
 	// Apply spaceless filter to the rendered content
 	result, err := ctx.ApplyFilter("spaceless", buf.String())
 	if err != nil {
-		// Fall back to original content on filter error
-		_, err = w.Write(buf.Bytes())
 		return err
 	}
 
